@@ -464,9 +464,13 @@ def judge(h, box, res, rep, case, T, EPS):
                 return
             deviation = deviation or fl["down"] not in ("inorder", "none")
             pres = model.presence(model.ren, K, now)
-            small_recent = K in model.small and now - model.small[K] < 2 * T
-            if small_recent and (K not in model.ren or model.small[K] > model.ren[K][1] - 1e-9):
-                # the latest block-0 rendering fitted one block and was not kept: beyond-the-end (4.00) or no-rendering (4.08)
+            if K in model.small:
+                # the rendering made for the latest block-0 request fitted one block (and was not kept): a later block
+                # is beyond its end (4.00) or finds no rendering (4.08); an older, superseded rendering that may still
+                # be around is not "the rendering made for the latest block-0 request"
+                if code not in (rc.c(4, 0), rc.c(4, 8)) and pres != "no":
+                    rep.violation("block2/served-from-superseded-rendering", "a later block was served (%s) from a rendering that a newer block-0 request of the same endpoint / method / cache-key had superseded" % rc.code_str(code), wit(i), case)
+                    return
                 if code in (rc.c(4, 0), rc.c(4, 8)):
                     rep.count("later_block_on_single_block_rendering")
                     # keep the model's view of an older stored rendering in step with what the answer reveals:
